@@ -13,6 +13,28 @@ from .reference import asdl
 from .vals import Cst, Func, Gen, Hole, Obj, PTuple, UNode, UPrim, Unknown
 
 
+
+def _lost_element(v, seen=None, depth=0):
+    """Description of an `Unknown` standing for 'some element of a list' inside a string template."""
+    seen = set() if seen is None else seen
+    if id(v) in seen or depth > 40:
+        return None
+    seen.add(id(v))
+    if isinstance(v, Unknown) and str(v.desc).startswith(("elem", "elem(")):
+        return v.desc
+    for attr in ("parts", "args", "items"):
+        for x in getattr(v, attr, None) or []:
+            if not isinstance(x, (str, int, type(None))):
+                r = _lost_element(x, seen, depth + 1)
+                if r:
+                    return r
+    if hasattr(v, "fields") and isinstance(getattr(v, "fields"), dict):
+        for x in v.fields.values():
+            r = _lost_element(x, seen, depth + 1)
+            if r:
+                return r
+    return None
+
 class UnparserModel:
     def __init__(self, prog: Program):
         self.prog = prog
@@ -143,6 +165,13 @@ class UnparserModel:
             return run_protected(it, pr, body)
 
         out = [pr for _d, pr in enumerate_paths(run, None, what=f"unparse[{kind}]")]
+        # a text assembled from elements the interpreter lost track of ("an element of some list") is
+        # not the repository's skeleton: no rule may read anything off it
+        for pr in out:
+            if pr.outcome == "ok":
+                lost = _lost_element(pr.result)
+                if lost:
+                    raise AnalysisError(f"the text unparse_{kind} returns goes through containers the string model cannot follow ({lost})")
         self._paths[kind] = out
         return out
 
